@@ -96,7 +96,7 @@ impl Obs {
             e.push(f());
         }
     }
-    fn merge(&mut self, o: Obs) {
+    pub fn merge(&mut self, o: Obs) {
         self.evals += o.evals;
         self.nontrivial.extend(o.nontrivial);
         for (k, v) in o.classes {
